@@ -412,6 +412,7 @@ func TestC23(t *testing.T) {
 	}
 	var mu sync.Mutex
 	perKey := map[string]int{}
+	perFine := map[string]int{}
 	var samples []any
 	nviol := 0
 	report := func(tk task, job explore.Job, res explore.Result) {
@@ -467,12 +468,18 @@ func TestC23(t *testing.T) {
 			res.Viol = append(res.Viol, explore.Violation{Key: "worker-crash", What: res.Crash})
 		}
 		for _, v := range res.Viol {
-			key := "C23:" + tk.cfg.Kind + ":" + v.Key + ":" + faultClass(job.Kinds)
+			// The class used by the known-findings file: request kind + oracle
+			// key. The fault class (which faults were injected, without
+			// connection names) refines it in the evidence only: with two
+			// deviations the combinations are too many to list as findings.
+			key := "C23:" + tk.cfg.Kind + ":" + v.Key
+			fine := key + ":" + faultClass(job.Kinds)
 			s.ViolationCount++
 			nviol++
+			perFine[fine]++
 			if perKey[key]++; perKey[key] <= 3 {
 				r.Violation(key, fmt.Sprintf("configuration %s, deviations %v: %s", tk.cfg.Name(), job.Kinds, v.What),
-					map[string]any{"check": "C23", "scenario": tk.cfg.Name(), "prefix": job.Prefix, "labels": job.Labels, "violation": v})
+					map[string]any{"check": "C23", "scenario": tk.cfg.Name(), "prefix": job.Prefix, "labels": job.Labels, "fault_class": faultClass(job.Kinds), "violation": v})
 			}
 		}
 	}
@@ -551,6 +558,7 @@ func TestC23(t *testing.T) {
 	}
 	r.Set("bound_completed", bc)
 	r.Set("violations_per_class", perKey)
+	r.Set("violations_per_class_and_faults", perFine)
 	r.Set("violations_observed", nviol)
 	if len(vacuous) > 0 {
 		r.Set("vacuous_kinds", vacuous)
